@@ -36,9 +36,15 @@ def binary_search_lightness(
     try:
         l, c, h = rgb_to_oklch_safe(text_rgb)
 
-        # Determine search direction based on background brightness
+        # Determine search direction: move the text away from the background.
+        # Text that is already lighter than the background gains contrast by getting
+        # lighter, darker text by getting darker; deciding from the background's
+        # brightness alone pushes e.g. light text on a mid-tone background towards it.
         bg_l, _, _ = rgb_to_oklch_safe(bg_rgb)
-        search_up = bg_l < 0.5  # Lighten text on dark bg, darken on light bg
+        if l != bg_l:
+            search_up = l > bg_l
+        else:
+            search_up = bg_l < 0.5  # Lighten text on dark bg, darken on light bg
 
         # Binary search bounds
         low = l if search_up else 0.0
